@@ -1532,6 +1532,7 @@ func (m *metadataAPI) removeStream(stream *stream, epoch uint64) {
 		}
 	}
 	m.startGoroutine(func() {
+		verifPoint("removeStream:notify-groups")
 		m.consumerGroupsMu.RLock()
 		for _, group := range m.consumerGroups {
 			group.StreamDeleted(stream.GetName(), epoch)
